@@ -34,6 +34,10 @@ func runC11(w *World, r *Report) {
 	c11Alias(w, r)
 	c11NameInPath(w, r)
 	c11AliasesFirst(w, r)
+	c11EnabledBeforeImport(w, r)
+	r.Rule("C11/ENABLED-VALUES", "the values from which dependencies are enabled or disabled are the values that are rendered and recorded: install and upgrade hand one values object to dependency processing, rendering and the new record", 2)
+	c13Current(w, r, "C11/ENABLED-VALUES", true)
+	c13InstallValues(w, r, "C11/ENABLED-VALUES")
 	r.Rule("C11/NO-ALIASING", "dependency lists of a chart are never filtered in place (x[:0] then append) while the chart still uses them", 1)
 	checkInPlaceFilters(w, r, "C11/NO-ALIASING", []string{"pkg/chart/v2/util", "pkg/chart/v2", "pkg/engine"})
 }
@@ -357,10 +361,10 @@ func c11Disabled(w *World, r *Report) {
 			if mu, ok := in.(*ssa.MapUpdate); ok {
 				if mm, ok := mu.Map.(*ssa.MakeMap); ok {
 					_, isStruct := mm.Type().Underlying().(*types.Map).Elem().Underlying().(*types.Struct)
-				if cb, isC := constBool(mu.Value); isBoolType(mm.Type().Underlying().(*types.Map).Elem()) && isC && cb {
-					isStruct = true // a set written as map[string]bool holding only true
-				}
-				if isStruct {
+					if cb, isC := constBool(mu.Value); isBoolType(mm.Type().Underlying().(*types.Map).Elem()) && isC && cb {
+						isStruct = true // a set written as map[string]bool holding only true
+					}
+					if isStruct {
 						// guarded by the false edge of an Enabled load
 						var disabled []Edge
 						for _, bb := range fn.Blocks {
@@ -837,4 +841,53 @@ func c11AliasesFirst(w *World, r *Report) {
 		}
 	}
 	r.Check(bad == "", "C11/ALIASES-FIRST", "order", w.InstrPos(coal[0]), "effective values are computed after the aliases were applied and drive tags and conditions", bad)
+}
+
+// c11EnabledBeforeImport: import-values rewrites the parent's defaults from what its dependencies export.
+// Disabled dependencies must be gone by then, or their exports stay in the parent's values.
+func c11EnabledBeforeImport(w *World, r *Report) {
+	r.Rule("C11/ENABLED-BEFORE-IMPORT", "wherever dependencies are processed, disabled dependencies are removed (processDependencyEnabled succeeded) before import-values are folded into the parents", 1)
+	en := w.Fn("pkg/chart/v2/util", "processDependencyEnabled")
+	im := w.Fn("pkg/chart/v2/util", "processDependencyImportValues")
+	if en == nil || im == nil {
+		r.Unk("C11/ENABLED-BEFORE-IMPORT", "anchor", "-", "processDependencyEnabled / processDependencyImportValues not found")
+		return
+	}
+	n := 0
+	for _, fn := range w.FuncsIn("pkg/chart/v2/util") {
+		if fn == im || fn.Parent() != nil {
+			continue
+		}
+		var ens, ims []ssa.CallInstruction
+		for _, c := range callInstrs(fn) {
+			f, _ := calleeOf(c.Common())
+			if f == nil {
+				continue
+			}
+			switch origin(f) {
+			case en:
+				ens = append(ens, c)
+			case im:
+				ims = append(ims, c)
+			}
+		}
+		if len(ims) == 0 {
+			continue
+		}
+		r.Fn(FuncName(fn))
+		g := FullGraph(fn)
+		for i, c := range ims {
+			n++
+			ok := false
+			for _, e := range ens {
+				if g.AfterOK(e, posOf(c)) {
+					ok = true
+				}
+			}
+			r.Check(ok, "C11/ENABLED-BEFORE-IMPORT", fmt.Sprintf("%s/import#%d", FuncName(fn), i+1), w.InstrPos(c), "import-values run only after the disabled dependencies were removed", "import-values can run while disabled dependencies are still attached: their exported values are folded into the parent's defaults and stay there")
+		}
+	}
+	if n == 0 {
+		r.Unk("C11/ENABLED-BEFORE-IMPORT", "no-site", "-", "no caller of processDependencyImportValues found")
+	}
 }
